@@ -155,6 +155,9 @@ func (c *fctx) aliasSource(e ast.Expr, en *env) (string, bool) {
 				}
 			}
 		}
+		if a := c.t.identArg09(x); a != nil { // [ext:T09] an identity call shares with its argument
+			return c.aliasSource(a, en)
+		}
 		return "?call", true // a slice returned by a call may share with anything the callee saw
 	}
 	return "", false
@@ -344,6 +347,9 @@ func (c *fctx) expr(e ast.Expr, en *env, k func(string) string) string {
 	case *ast.SelectorExpr:
 		sel := t.info.Selections[x]
 		if s, ok := c.foreign15(x); ok { // [ext:T15] hex.ErrLength: a sentinel of an imported package
+			return k(s)
+		}
+		if s, ok := c.selector09(x); ok { // [ext:T09] rand.Reader: a variable of a foreign package, a field of the Record
 			return k(s)
 		}
 		if sel == nil || sel.Kind() != types.FieldVal {
@@ -701,6 +707,9 @@ func (c *fctx) call(x *ast.CallExpr, en *env, k func([]string) string) string {
 		return s
 	}
 	if s, ok := c.call15(x, en, k); ok { // [ext:T15] fmt.Errorf / errors.New as an error kind; hex.EncodedLen / DecodedLen
+		return s
+	}
+	if s, ok := c.call09(x, en, k); ok { // [ext:T09] identity functions of other packages, functions of the package taken as foreign
 		return s
 	}
 	if s, ok := c.foreignCall08(x, en, k); ok { // [ext:T08] TransSpec.Foreign, errors.New / fmt.Errorf
